@@ -2,7 +2,7 @@
 C24 — core safety invariant of the RPC engine model (`TdModel.Rpc`), for the repaired `Do`
 (`cfg.guard = true`), by induction over arbitrary action lists.
 -/
-import TdModel.Model.C24
+import TdModel.Lemmas.C24Std
 namespace TdModel.Rpc
 
 /-- Core invariant.  `stage_*`: a notifier that has won the handler CAS (parked at `handler.cas`
@@ -18,6 +18,9 @@ structure Inv (s : State) : Prop where
       s.calls cid = some c → c.owner = some (.notif nid) ∧ c.done = false ∧ c.ret = none
   /-- a registered acknowledgement channel belongs to a call that is still inside `retryUntilAck`. -/
   ack_pc : ∀ i, s.ack i = true → ∃ c, s.calls i = some c ∧ (c.pc = .send0 ∨ c.pc = .loop ∨ c.pc = .sendR)
+  /-- a registered channel is still open, so `NotifyAcks` never closes a channel twice. -/
+  ack_unacked : ∀ i c, s.ack i = true → s.calls i = some c → c.acked = false
+  not_panicked : s.panicked = false
   /-- the retry timer lives only inside the retry loop. -/
   timer_pc : ∀ i c, s.calls i = some c → (c.deadline ≠ none ∨ c.fired = true) → (c.pc = .loop ∨ c.pc = .sendR)
 
@@ -27,19 +30,26 @@ theorem inv_init : Inv init := by
 /-- Discharge one branch of a step function: unfold the state update, let `grind` use the invariant. -/
 macro "inv_close" hg:term : tactic =>
   `(tactic| (constructor <;>
-      simp [setCall, setNotif, finish, Call.finish, removeAck, Call.exitLoop, Call.retC, newCall, $hg:term] <;> grind [Inv]))
+      simp [setCall, setNotif, finish, Call.finish, removeAck, exitAck, Call.exitLoop, Call.retC, newCall, Cfg.std_all $hg] <;>
+      grind [Inv]))
+
+/-- the same for the step functions that do not depend on the configuration. -/
+macro "inv_close0" : tactic =>
+  `(tactic| (constructor <;>
+      simp [setCall, setNotif, removeAck, Call.exitLoop, Call.retC, newCall] <;> grind [Inv]))
 
 theorem inv_start {s s' : State} {i seq body : Nat} (h : Inv s)
     (hs : stepStart s i seq body = some s') : Inv s' := by
   unfold stepStart at hs
   split at hs
   · simp at hs
-  · dsimp only at hs
-    split at hs <;> simp at hs <;> subst hs <;> inv_close True.intro
+  · try dsimp only at hs
+    split at hs <;> simp at hs <;> subst hs <;> inv_close0
 
-theorem inv_sret {cfg : Cfg} {s s' : State} {i : Nat} {o : Outcome} (hg : cfg.guard = true) (h : Inv s)
+theorem inv_sret {cfg : Cfg} {s s' : State} {i : Nat} {o : Outcome} (hg : cfg.std = true) (h : Inv s)
     (hs : stepSret cfg s i o = some s') : Inv s' := by
   unfold stepSret at hs
+  std_norm hg at hs
   split at hs
   · simp at hs
   · split at hs <;> try (simp at hs)
